@@ -14,6 +14,7 @@ def run(ck, build):
             "U(j+1) = PRF(P, U(j)), T ^= U(j+1), count - 1: count PRF evaluations in total")
     ck.rule("R-C14-BLOCKS", "block number starts at 1 and increases by one per block; full blocks are produced in place at the output cursor (out += 32, outlen -= 32, only when >= 32 remain); the last "
             "partial block goes through a local T, exactly the remaining 1..31 bytes are copied, T and U are wiped; exactly outlen bytes are written in total")
+    ck.rule("R-C14-PRF", "premise: the PRF underneath is the documented TinyJAMBU-HMAC over the documented hash (all rules of C12, C10 and C11 re-run on the same IR)")
     ck.not_decided += ["derived key values; block numbers beyond 2^32 (INT32BE truncation is inherent to RFC 8018)", "HMAC itself is C12"]
     mod = Module(build.facts("H", "N0"))
     ck.config("H", "N0")
@@ -21,6 +22,9 @@ def run(ck, build):
     def ob(cond, rule, fn, cons, ok, bad, where=None):
         return ck.ob(cond, MAP[rule], fn, cons, ok, bad, where=where)
     kdflib.check_pbkdf2(ob, mod, "H/N0")
+    from . import hashlib
+    kdflib.hmac_premises(ck, mod, "R-C14-PRF")
+    hashlib.premises(ck, mod, "R-C14-PRF")
     ck.floor("R-C14", "obligations over count / length classes", len(ck.obligations), 800)
     fx = Module(build.fixture_facts(os.path.join(os.path.dirname(os.path.dirname(os.path.dirname(__file__))), "fixtures", "c14_bad.c")))
     sub = type(ck)("C14-fixture")
